@@ -100,6 +100,10 @@ CLASSIFIERS = {"node_type_lt": cls_node_type_lt, "nan_payload": cls_nan_payload,
 
 def failures_of(r):
     out = []
+    if r["kind"] == "value" and r.get("src") == "second-pass":
+        # the same text parsed a second time, later in the same process, gave a different answer
+        return [{"class": "parse-depends-on-earlier-calls", "vk": r["vk"], "value": r["v"], "printed": vc.show(r["text"]),
+                 "second_parse": r["parsed"]}]
     if r["kind"] == "value" and r.get("src") in ("generated", "corpus"):
         if r.get("printpanic"):
             return [{"class": "print-panic", "vk": r["vk"]}]
@@ -126,10 +130,18 @@ def run(ctx):
     ctx.cov["checker_cmd"] = "coqc -Q coq/Values BWValues coq/Values/Props/C05.v ; work/bin/h_values -mode values|graph ; model evaluated by coqc (vm_compute) on the generated cases"
     thorough = ctx.tier == "thorough"
     seed = str(ctx.seed)
-    rows = vc.hrows(["-mode", "values", "-seed", seed, "-n", "30000" if thorough else "800"])
+    rows = vc.hrows(["-mode", "values", "-seed", seed, "-n", "30000" if thorough else "600"])
     rows += vc.hrows(["-mode", "graph", "-seed", seed, "-n", "1500" if thorough else "30"])
+    second = [r for r in rows if r["kind"] == "secondpass"]
+    big = [r for r in rows if r.get("nomodel")]
+    rows = [r for r in rows if r["kind"] != "secondpass" and not r.get("nomodel")]
+    nmodel = len(rows)
     qi = {}
     bad, dom, ill = vc.model_eval(ctx, "cases_c05", rows, quote_instance=qi)
+    # cases too large for the Coq evaluation (graph text > 64 KiB, built from line-safe domain triples only): the
+    # property is checked on the implementation's observations; they count as in-domain
+    rows = rows + big
+    dom = dom + list(range(nmodel, len(rows)))
     if qi.get("mismatches", 0) > 0:
         ctx.violation({"kind": "gallina-quote-instance-vs-go", "count": qi["mismatches"],
                        "explain": "Instance.quote_g / unquote_g (the Gallina instance whose laws are proved) disagrees with strconv.Quote on ASCII input"})
@@ -202,6 +214,8 @@ def run(ctx):
     ctx.cov["graph_sizes"] = sorted(set(len(r["triples"] or []) for r in rows if r["kind"] == "graph"))
     ctx.cov["roundtrip_outcomes"] = {c: sum(1 for r in rows if r["kind"] == "value" and r.get("parsed", {}).get("c") == c) for c in ("ok", "err", "panic", "nilnil")}
     ctx.cov["model_mismatches"] = len(bad)
+    ctx.cov["second_pass"] = second[0] if second else None
+    ctx.cov["largest_graph_text_bytes"] = max([r.get("textlen", 0) for r in rows if r["kind"] == "graph"] + [0])
     ctx.cov["failures_in_known_classes"] = {k: len(v) for k, v in explained.items()}
     ctx.cov["property_failures_unexplained"] = len(unexplained)
     ctx.cov["samples"] = [vc.strip(r) for r in rows[20:23]]
